@@ -9,6 +9,11 @@ package bcast
 //@ pure pb.BCastSigRequest.GetId pb.BCastSigRequest.GetMessage pb.BCastMessage.GetId pb.BCastMessage.GetMessage pb.BCastMessage.GetSignatures
 //@ pure anypb.Any.UnmarshalNew anypb.Any.GetTypeUrl anypb.Any.GetValue anypb.New p2p.PeerIDToKey k1util.Verify65 k1util.Sign
 
+// bindsSender(h, p): the signed hash h commits to the requesting member p. Ghost predicate without any
+// source in the code (newHashAny hashes session, id, type URL and value only): the obligation that uses it
+// is the property-strength statement 'a signature names the sender' and is a recorded known finding (F-C13).
+//@ spec func bindsSender(h []byte, p peer.ID) bool
+
 //@ func (s *server) dedupHash
 //@ props C13
 //@ atomic
@@ -31,6 +36,7 @@ package bcast
 //@ callreq s.signFunc: res(1, s.hashFunc(req.GetId(), req.GetMessage())) == nil && a2 == res(0, s.hashFunc(req.GetId(), req.GetMessage()))
 //@ callreq s.signFunc: found && fn.checkMessage(ctx, pID, req.GetMessage()) == nil
 //@ callreq s.signFunc: has(s.dedup, dedupKey{PeerID: pID, MsgID: req.GetId()}) && s.dedup[dedupKey{PeerID: pID, MsgID: req.GetId()}] == reqMessageHash
+//@ callreq s.signFunc: bindsSender(a2, pID)
 //@ ensures r2 == nil ==> r1 && ncalls(s.signFunc) == 1
 //@ ensures ncalls(s.signFunc) <= 1
 //@ canary r2 != nil
